@@ -118,8 +118,10 @@ def c13(c):
 
 
 def c15(c):
+    c.assumptions += ["end-to-end tier: a connection served by an nbhttp engine must respect THAT engine's ReadLimit whatever the Upgrader's Engine field says; behind net/http "
+                      "the Upgrader's engine is the reference; transfer cells need a started engine in u.Engine; real sockets: a failing cell is run twice before it is reported"]
     c.assumptions += ["theorem hypotheses: MessageLengthLimit and the bytes held in the cache stay below 2^62 (the Go code computes the sums in int64)"]
-    _run(c, "C15", "15", 9000, 150000)
+    _run(c, "C15", "15,15e", 9000, 150000)
 
 
 CHECKS = {"C12": c12, "C13": c13, "C15": c15}
@@ -147,7 +149,7 @@ MANIFEST = {
              "Concurrent tier (every run, after the sequential part): 8 (thorough: 10) independent connections run in parallel goroutines, each sending 70 (200) "
              "messages in both directions (server->client and client->server) with mixed sizes incl. ~50 KB compressible ones, different compression levels per pair "
              "and side, compression off on some pairs, ReleasePayload on/off, the library's reader behind the public decompressor hook on some, shared and "
-             "per-engine body allocators; every message must be delivered exactly once with its type and payload (signatures concurrent-pairs-payload/-lost/"
+             "per-engine body allocators (mempool.DefaultMemPool, mempool.NewAligned(), mempool.NewSTD() and a harness-side always-relocating, poisoning allocator - also a dimension of the lock-step tiers of C12/C13/C15 on sender and receiver side); every message must be delivered exactly once with its type and payload (signatures concurrent-pairs-payload/-lost/"
              "-duplicated/-type/-panic/-stuck): this crosses the package-level state the codec shares between connections (flate reader pool, flate writer pools "
              "per level, the default BodyAllocator).",
         note="The theorems are about the model; DEFLATE (law assumed: reading the decompressor's answers to the end gives the message), the unrolled XOR loop, ReadLimit > 0 "
@@ -174,6 +176,9 @@ MANIFEST = {
              "FIN x RSV1-3 x 16 opcodes x mask x length encodings x inside/outside a fragmented message x compression, UTF-8 vectors split at every byte across two and three "
              "fragments, close-code classes (all 65536 in the thorough tier), sequencing cases, permessage-deflate cases, random valid and mutated sequences, in "
              "whole/per-frame/byte-wise/single-cut/random segmentations; verdict, deliveries and replies must equal an RFC 6455 reference written in the harness (not the model), "
+             "crossed with the handler configuration {OnMessage only (the model's), OnDataFrame only, both, none}: 2/3/4-byte characters cut at every inner position into up to four "
+             "fragments, sequences that are invalid only across the boundary; a sequence the RFC allows must be accepted in every configuration, OnDataFrame gets every non-empty data "
+             "frame in order (type of its message, FIN, raw payload), whole-message checks (UTF-8, inflate) are demanded only where a message handler exists, "
              "and the model must agree with the implementation.",
         note="c13_sequences is about the model; the model is tied to the code by the generated tables (re-dumped from the code through the overlay before every Coq build) and the "
              "differential run. Deliveries are counted up to the point where the endpoint itself closes the connection: what Parse still does with later frames of the SAME read "
@@ -189,7 +194,12 @@ MANIFEST = {
              "and c15_control_125_send, c15_1009 (too large => the error and exactly one close frame with code 1009). Every run: limits 1..70000 with messages of limit-1/limit/+1/+2 "
              "bytes in one frame, in fragments, header only, compressed payloads inflating to limit-1 .. 1000 x limit (sync-flushed and BFINAL streams, three decompressor modes incl. data "
              "and EOF in one Read), control frames 125/126/.. on send and receive, read limits with pieces around the limit; oracle: nothing above the limit delivered, refusal with the "
-             "too-large error and a 1009 close frame, messages within the limit delivered intact, allocator peak bounded, cache bounded.",
+             "too-large error and a 1009 close frame, messages within the limit delivered intact, allocator peak bounded, cache bounded. "
+             "End-to-end tier (every run): real nbhttp engines / net/http servers on loopback with the real Upgrader in every reachable upgrade path (poller plain and TLS, "
+             "blocking plain/TLS with and without transfer to the poller, IOModMixed blocking and poller part, net/http plain/TLS with the Conn's own read loop, net/http "
+             "transferred), the serving engine with ReadLimit 4096, the Upgrader with its Engine left default and with u.Engine set; raw clients (crypto/tls on TLS listeners) "
+             "trickle an incomplete 60000-byte frame, send a frame declaring limit+1, fragments over the limit, a compressed bomb, a valid message; oracle: connection failed, "
+             "1009 received, nothing above the limit delivered, unparsed input observed in the Conn never above ReadLimit + one read.",
         note="Theorem hypotheses: limit and held bytes below 2^62 (the code computes the sums in int64; the model has nextFrame's wrap-around explicitly). The allocator-peak bound is a "
              "generous one-sided test, not a theorem. Trusted: as C12.",
         design="4/C15, Appendix D"),
